@@ -368,6 +368,7 @@ type expect struct {
 	propOK []bool // slot-wise: did the property hold on the implementation for this input
 	anyOf  bool   // P lines with several candidate `now`: handled by group
 	onlySlot int  // history lines: compare just this slot (1-based; 0 = all)
+	objHist  bool // Q lines: results of a reused object; positions answered `range` by the model are not compared
 	group  int
 }
 
@@ -404,6 +405,7 @@ func main() {
 		"non-trivial = instant inside the century; distinct = distinct instants. " +
 		"D: histories — seeded random sequences of calls mixing every public helper (and a shared DateFormat, and the clock-reading variants) over a pool of instants " +
 		"(same second, adjacent seconds, same minute/day, far apart; interleaved, repeated) plus all ordered pairs of helpers on two instants; each answer vs the time package and vs the model. " +
+		"F: one DateFormat object parsing 2-4 texts in a row (formatted instants, cut short, with signs/letters) vs the object model. " +
 		"E: 12-16 goroutines call every public helper on their own instants (two shared) for a fixed time, every answer vs the value precomputed from the time package; run in a child process (crash = finding), under -race in the thorough tier. " +
 		"C: patterns over the letters ymdHMSs with random literal separators (ASCII, digits, non-ASCII), full and partial, x instants; " +
 		"non-trivial = pattern with at least one field letter; distinct = distinct (pattern, instant)."
@@ -638,14 +640,14 @@ func main() {
 			case 0:
 				rs = rs[:rng.Intn(len(rs)+1)]
 			case 1:
-				rs[rng.Intn(len(rs))] = rune(rng.PickStr([]string{"a", " ", "é", ":"})[0])
+				rs[rng.Intn(len(rs))] = rune(rng.PickStr([]string{"a", " ", "é", ":", "-", "+", "-", "+"})[0])
 			case 2:
 				j := rng.Intn(len(rs))
 				rs = append(rs[:j], rs[j+1:]...)
 			}
 			ok := true
 			for _, r := range rs {
-				if r == '+' || r == '-' || r > 127 { // signs are not modelled; bytes vs runes differ inside fields
+				if r > 127 { // bytes vs runes differ inside fields
 					ok = false
 				}
 			}
@@ -806,6 +808,88 @@ func main() {
 		}
 	}
 
+	// ------------------------------------------------------------ F: one DateFormat object, several Parse calls
+	// The object keeps its field map between calls (after a successful call all seven keys are set),
+	// so later calls take absent fields from the map, not from the clock.  Model: parseObj/parseHistory.
+	objHistory := func(pat string, texts []string, tag string) {
+		var outs []string
+		var nows []int64
+		for try := 0; try < 40; try++ {
+			df := dateutil.NewDateFormat(pat)
+			outs, nows = outs[:0], nows[:0]
+			clean := true
+			for _, tx := range texts {
+				before := time.Now().UnixMilli()
+				var v int64
+				var err error
+				o := vh.Guard(func() { v, err = df.Parse(tx) })
+				after := time.Now().UnixMilli()
+				if after != before {
+					clean = false
+				}
+				switch {
+				case !o.OK():
+					outs = append(outs, "panic")
+				case err != nil:
+					outs = append(outs, "err")
+				default:
+					outs = append(outs, strconv.FormatInt(v, 10))
+				}
+				nows = append(nows, before)
+			}
+			if clean {
+				break
+			}
+		}
+		rep.Case("obj:"+pat+"@"+strings.Join(texts, "|"), true)
+		rep.Count("F:object-histories")
+		rep.CountN("F:parse-calls-on-reused-object", len(texts))
+		var b strings.Builder
+		fmt.Fprintf(&b, "Q %s", cps(pat))
+		for k, tx := range texts {
+			fmt.Fprintf(&b, " %d %s", nows[k], cps(tx))
+		}
+		add(b.String(), expect{want: []string{strings.Join(outs, ";")}, key: "DateFormat.Parse:reused-object", objHist: true,
+			rep: map[string]interface{}{"op": "Q", "pattern": pat, "texts": texts, "results": outs, "stage": tag}})
+	}
+	if !replayMode {
+		nobj := 400
+		if env.Thorough {
+			nobj = 20000
+		}
+		for i := 0; i < nobj; i++ {
+			pat := genPattern(rng, rng.Chance(40))
+			n := 2 + rng.Intn(3)
+			texts := make([]string, n)
+			for k := range texts {
+				t := baseMs + rng.Range(0, nDays-1)*dayMs + rng.Range(0, dayMs-1)
+				tx := implFormat(pat, t)
+				rs := []rune(tx)
+				switch rng.Intn(8) {
+				case 0: // cut short: later fields keep what an earlier call stored
+					rs = rs[:rng.Intn(len(rs)+1)]
+				case 1: // a sign or a letter inside a field
+					if len(rs) > 0 {
+						rs[rng.Intn(len(rs))] = rune(rng.PickStr([]string{"-", "+", "a"})[0])
+					}
+				}
+				ok := true
+				for _, r := range rs {
+					if r > 127 {
+						ok = false
+					}
+				}
+				if ok {
+					tx = string(rs)
+				}
+				texts[k] = tx
+			}
+			objHistory(pat, texts, "random")
+		}
+		// the witness of C19.finding_reuse
+		objHistory("y-m-d", []string{"2024-02-29", "2025-03-01"}, "witness")
+	}
+
 	// ------------------------------------------------------------ E: concurrent calls (child process, see conc.go)
 	if !replayMode {
 		rounds, gor, ms := 2, []int{12, 16}, 450
@@ -836,6 +920,12 @@ func main() {
 			for k := 0; k < 3; k++ {
 				concStage(rep, job, "replay")
 			}
+		case "Q":
+			var texts []string
+			if raw, err := json.Marshal(c["texts"]); err == nil {
+				json.Unmarshal(raw, &texts)
+			}
+			objHistory(c["pattern"].(string), texts, "replay")
 		case "S":
 			var seq []hcall
 			if raw, err := json.Marshal(c["sequence"]); err == nil {
@@ -935,6 +1025,20 @@ func main() {
 			if got == e.want[0] {
 				continue
 			}
+			if e.objHist {
+				g, w := strings.Split(got, ";"), strings.Split(e.want[0], ";")
+				same := len(g) == len(w)
+				for k := 0; same && k < len(g); k++ {
+					if g[k] == "range" {
+						rep.Count("F:result-outside-modelled-years")
+					} else if g[k] != w[k] {
+						same = false
+					}
+				}
+				if same {
+					continue
+				}
+			}
 			rp := map[string]interface{}{}
 			for k, v := range e.rep {
 				rp[k] = v
@@ -950,6 +1054,28 @@ func main() {
 		}
 	}
 	rep.Extra["driver_lines"] = len(lines)
+	// the link "Go's time package = the Spec calendar `civil`" is compared, not proved: say how much was compared
+	{
+		specDays, specBad := 0, 0
+		for i, e := range exps {
+			if e.key == "spec:civil-vs-stdlib" {
+				specDays++
+				if outs[i] != e.want[0] {
+					specBad++
+				}
+			}
+		}
+		rep.Extra["spec_vs_go_time_package"] = map[string]interface{}{
+			"what":                 "Lean Spec `civil`/`weekdayMon` (driver op C) against time.Unix(z*86400,0).UTC() Year/Month/Day/Weekday",
+			"days_compared":        specDays,
+			"range":                "2000-01-01 .. 2099-12-31 (every day, both tiers)",
+			"mismatches":           specBad,
+			"status":               "compared on every run, NOT proved: Go's time package is outside the Lean development",
+			"proved_about_spec":    "civil is a bijection between day numbers >= 0 and valid Gregorian dates >= 1970-01-01, civil 0 = 1970-01-01, civil (z+1) = nextDay (civil z) for every z (C19.spec_inverse, spec_inverse_left, spec_day_by_day_all)",
+			"also_compared_per_call": "every helper answer of stages B, D, E against time.Time.Format / arithmetic",
+		}
+		rep.Note("Spec calendar vs Go time package: %d days compared, %d mismatches (comparison, not a proof)", specDays, specBad)
+	}
 	// a function for which an input violating the property itself was exhibited is reported once,
 	// as that violation; its model disagreements are not separate verdicts
 	fn := func(key string) string {
